@@ -152,7 +152,10 @@ public:
       break;
     }
     case O_RENAME: m_val.rename({var(op.v0)}, {var(op.v1)}); break;
-    case O_EXPAND: m_val.expand(var(op.v0), var(op.v1)); break;
+    case O_EXPAND:
+      if (op.a) m_val -= var(op.v1); // a=1: the target is forgotten first, so that it is a new variable
+      m_val.expand(var(op.v0), var(op.v1));
+      break;
     case O_NORMALIZE: m_val.normalize(); break;
     case O_MINIMIZE: m_val.minimize(); break;
     case O_JOIN: m_val = m_val | other_val(other); break;
